@@ -15,17 +15,21 @@ SCRATCH_ROOT = os.path.join(build.CACHE, "tmp")
 RULES = {
     "C14": "seeded cases: one raw device, 1-4 set/start/append*/stop cycles to fresh paths (relative, absolute, file:// "
            "spellings; zero-append cycles), frames of random shape/type (all size residues) grouped into random packets, "
-           "75% of the cases with every pwrite split into random positive short writes by the interposed pwrite. Oracle: "
+           "75% of the cases with every pwrite split into random positive short writes by the interposed pwrite; in a third "
+           "of the cases a second raw device fails to start on a file locked by another holder and is closed right after, "
+           "in the middle of, or after the appends of the device under test. Oracle: "
            "file bytes == concatenation of the cycle's packets, exact size. Distinct = hash of (frames per cycle, URI "
            "spelling) sequences; every case is non-trivial (>=1 multi-packet cycle or a restart).",
     "C15": "seeded cases: tiff or tiff-json device, 1-3 start/stop cycles, N=1..40 frames of all 8 sample types and "
            "varying shapes, random packet grouping, metadata none/''/{}/nested/~8 KiB and metadata changing to empty, pixel "
-           "scales incl. 0 and fractions, three URI spellings, short writes. Every produced file is parsed by "
+           "scales incl. 0 and fractions, three URI spellings, short writes; plus files of 4.3-7 GiB (frames of 0.6-1.4 GiB, "
+           "stored sparsely by the interposed pwrite, byte-identical to a full write). Every produced file is parsed by "
            "lib/bigtiff.py (independent reader): header, chain of exactly N IFDs ending in 0, all structures inside the "
            "file and pairwise disjoint, per-IFD shape/bits/format, strip prefix == pixels, description JSON ids and "
            "timestamps, user metadata on frame 0 / in metadata.json. Distinct = hash of (N, kind, metadata class) per cycle.",
     "C16": "fault enumeration: for each storage kind (raw, tiff, tiff-json, trash) x 8 life-cycle templates a fault-free "
-           "run counts the OS-level open and pwrite calls; then one child process per (open index, EACCES) and per "
+           "run counts the OS-level open, flock and pwrite calls; then one child process per (open index, EACCES), per "
+           "(flock index, EWOULDBLOCK) and per "
            "(pwrite index, mode) with mode in {persistent ENOSPC, single EIO, short-write-then-EIO, persistent zero-length "
            "writes}. Oracle per child: not killed by a signal / sanitizer (1 MiB stack so runaway recursion dies), no "
            "watchdog, device not Running at the end of an append during which a write failed, descriptor ledger "
@@ -72,6 +76,17 @@ def run(prop, tier, replay=None):
             wk.case_is_args = True
             wk.replay_extra = {"scratch": "(fresh directory)"}
             workers.append(wk)
+        if prop == "C15" and sl == 0:
+            # files beyond 4 GiB (sparse on disk): one case per process
+            nbig = 2 if tier == "quick" else 16
+            for b in range(nbig):
+                d = os.path.join(root, "wbig%d" % b)
+                hp = os.path.join(root, "hbig%d.hash" % b)
+                wk = vlib.Worker([exe, "tiffbig", sub, b, 1, d], ("tiffbig", b, 0), timeout=1800, env={"VERIF_HASH_OUT": hp})
+                wk.hash_path = hp
+                wk.case_is_args = True
+                wk.replay_extra = {"scratch": "(fresh directory)"}
+                workers.append(wk)
         vlib.run_pool(workers)
         vlib.rerun_hung(chk, workers)
         ss, _ = vlib.collect(chk, workers, prop)
@@ -102,7 +117,7 @@ def run(prop, tier, replay=None):
         tot["files_parsed_by_independent_reader"] = files_checked
         if files_checked < tot.get("files", 0):
             chk.fail("only %d of %d produced files were parsed" % (files_checked, tot.get("files", 0)))
-    for k in (["short_writes", "file_uri_spellings", "empty_cycles", "cycles", "restarts_without_set"] if prop == "C14" else ["short_writes", "cycles"]):
+    for k in (["short_writes", "file_uri_spellings", "empty_cycles", "cycles", "restarts_without_set", "locked_neighbours"] if prop == "C14" else ["short_writes", "cycles", "files_over_4gib"]):
         if not tot.get(k):
             chk.fail("required event class never observed: %s" % k)
     chk.coverage = {"events": tot}
@@ -164,12 +179,14 @@ def run_c16(tier, exe, replay=None):
         if wk.rc != 0 or not s or wk.records("V"):
             _judge(chk, wk)
             continue
-        sites[(wk.tag[0], wk.tag[1])] = (s[-1]["opens"], s[-1]["pwrites"])
+        sites[(wk.tag[0], wk.tag[1])] = (s[-1]["opens"], s[-1]["pwrites"], s[-1].get("flocks", 0))
     # pass 2: one child per (site, mode); quick samples the large templates, thorough takes all
     cases = []
-    for (k, t), (no, npw) in sorted(sites.items()):
+    for (k, t), (no, npw, nfl) in sorted(sites.items()):
         for i in range(no):
             cases.append((k, t, "open", i, "eacces"))
+        for i in range(nfl):
+            cases.append((k, t, "flock", i, "ewouldblock"))
         idx = list(range(npw))
         if False and tier == "quick" and npw > 12:
             keep = set(idx[:5] + idx[-4:])
@@ -191,7 +208,7 @@ def run_c16(tier, exe, replay=None):
             wk.run()
     fired = 0
     distinct = set()
-    total_sites = sum(a + b for a, b in sites.values())
+    total_sites = sum(sum(v) for v in sites.values())
     for wk in children:
         shutil.rmtree(wk.dir, ignore_errors=True)
         s = _judge(chk, wk)
@@ -204,7 +221,7 @@ def run_c16(tier, exe, replay=None):
     chk.coverage = {"events": {"kinds": len(KINDS), "templates": len(TEMPLATES), "fault_free_runs": len(counters),
                                "os_call_sites_total": total_sites, "children": len(children), "children_where_fault_fired": fired,
                                "sites_per_kind_template": {"%s/%d" % k: v for k, v in sorted(sites.items())}}}
-    chk.assumptions = ["faults are injected at the pwrite/open calls of platform.c; fsync/close errors are not injected",
+    chk.assumptions = ["faults are injected at the open/flock/pwrite calls of platform.c; fsync/close errors are not injected",
                        "a failure of the header write in start() is judged only for crash/hang/descriptor discipline "
                        "(the property speaks of the failing append)"]
     if not fired:
